@@ -217,6 +217,8 @@ register(PropertySpec(
              "the functions that carry the user's field names in **kwargs keep their own parameters out of that namespace (positional-only)"),
         Rule("STACK-READ-LIVE", _lazy("modes", "rule_stack_read_live"), 1,
              "(shared with C09) the stack of open query blocks is read at call time only: leaving a block restores exactly the expression context for every reader"),
+        Rule("MODE-OFF-DOM", _lazy("modes", "rule_mode_off_dom"), 2,
+             "(shared with C09) the evaluation is advanced AND closed with the mode switched off and its own context stack: user code suspended inside it is finalised in the evaluation's environment, not in the caller's block"),
     ],
     explanation="The mode is a context variable with a closed set of writers, so confinement is a pairing property over "
                 "all exits of the code that writes it. Decided on the CFG with exceptional and generator-suspension "
